@@ -113,7 +113,7 @@ def run(run):
     run.rule = ("(a) token soups over a 110-atom wikitext alphabet (length 1-40); (b) grammar documents (sections, lists, rules, "
                 "fillers); (c) 1-3 random span mutations (delete/duplicate/insert/transplant) of the page strings used in the "
                 "repository's own parser tests; (d) nesting ladders to depth 100 for nine nestable constructs; (e) inputs "
-                "containing a placeholder character; each with and without pre_expand/expand_all; non-trivial = input has at "
+                "containing a placeholder character; (f) definition-list, link-trail and bracket shapes; each with and without pre_expand/expand_all; non-trivial = input has at "
                 "least 3 markup atoms; distinct by JSON hash")
     run.trusted = [
         "Coq 8.16.1 kernel; vm_compute evaluates Model.Tree.wf (the well-formedness predicate) on every returned tree",
@@ -121,6 +121,10 @@ def run(run):
         "the tree serialiser harness/implfns.py:_tree and the string abstraction (empty / contains placeholder)",
         "of the parser's handlers, _parser_merge_str_children and the table handlers have models (Model/Tree.v, Model/Tables.v; "
         "the latter tied to the parser by C03's check); the other handlers and the regex tokenizer are exercised, not modelled",
+        "Model/Stack.v (the primitive operations on the open-node stack) is tied to parser.py by harness/stacktrace.py: a sys.settrace "
+        "recorder that names each change of ctx.parser_stack / its top node as one of the model's operations (untrusted: Coq replays "
+        "the operations and compares the result with the returned tree; a change it cannot name is a reported break); "
+        "_finalize_expand enters the replay as the table of the placeholder characters that occur with their expansions",
     ]
     run.prove()
     rng = run.rng
@@ -178,6 +182,13 @@ def run(run):
               "<pre>{{foo|[bar]}}</pre>", "<pre>[[a|b<nowiki/>c]]</pre>", "{{foo|<span title=\"{{x|[y]}}\">z</span>}}",
               "<pre>{{{1|[d]}}} [x y]</pre>", "<nowiki>{{a|[b]}}</nowiki>", "<math>{{a|[b]}}</math>", "<ref>[[l|x<nowiki/>y]]</ref>"]:
         texts.append(t); klass.append("corpus")
+    # shapes that make the rarer primitive operations run: definition lists (temp_head), link trails, brackets taken back
+    SHAPES = ["; term : def\n", "; t\n: d\n", ";a:b\n", "* x\n*; h : d\n", "; ''t'' : [[l]]s\n", ";\n: d\n", "; t : d : e\n",
+              "[[link]]trail ", "[[a|b]]s, ", "[[a]]'s ", "[[a]]<nowiki/>s ", "[nourl] ", "[ x", "[", "[]", "[http://x.y]", "[//x.y z]",
+              "[mailto:a@b c]", "{{a|[}}", "{{a|[http://x.y}}", "<b>[</b>", "''[''", "* [\n", "{|\n| [\n|}\n", "''''' ", "'''' ",
+              "''a'''b''c''' ", "{{lc:X}}", "{{PAGENAME}}", "{{#if:a|[[b]]c}}", "{{{1|[[b]]c}}}", "== [[h]]s ==\n", "text "]
+    for _ in range(200 if quick else 3000):
+        texts.append("".join(rng.choice(SHAPES) for _ in range(rng.randint(1, 5)))); klass.append("shapes")
     for t in ["a" + MAGIC + "b", "{{X" + MAGIC + "}}", "[[" + MAGIC + "]]", "<b>" + MAGIC, "* " + MAGIC + "\n"]:
         texts.append(t); klass.append("placeholder")
     jobs, owner = [], []
@@ -262,6 +273,8 @@ def run(run):
         run.property_failure("c01:not-well-formed:%s%s" % (names, extra),
                              "parse(%r, %r) returned a tree violating clause(s) %s" % (texts[i][:300], kw, names),
                              {"text": texts[i], "kw": kw})
+    # ---- the primitive stack operations of real runs, replayed on Model/Stack.v
+    stack_traces(run, texts, klass, quick)
     # ---- model correspondence for _parser_merge_str_children
     lists = []
     for _ in range(400 if quick else 5000):
@@ -299,6 +312,99 @@ def run(run):
             run.count(["merge", l], len(l) >= 3, "merge")
     run.extra["traces_validated_against_impl"] = len(coq_cases)
     run.extra["test_pages_used_for_mutation"] = len(pages)
+
+
+def trace_item(x):
+    from lib import cstr
+    return ("IStr %s" % cstr(x)) if isinstance(x, str) else ("INode (%s)" % trace_node(x))
+
+
+def trace_node(n):
+    from lib import copt
+    il = lambda l: clist(l, trace_item, "item")
+    return "Nd %s %s %s %s %s" % (n["k"], clist(n["a"], il, "list item"), il(n["c"]),
+                                  "None" if n["h"] is None else "(Some %s)" % il(n["h"]),
+                                  "None" if n["d"] is None else "(Some %s)" % il(n["d"]))
+
+
+def trace_op(op):
+    from lib import cstr
+    k = op[0]
+    if k == "push":
+        return "OPush %s" % op[1]
+    if k == "pop":
+        return "OPop %s %s %s" % (cbool(op[1]), cbool(op[2]), cbool(op[3]))
+    if k == "text":
+        return "OText %s" % cstr(op[1])
+    if k == "trail":
+        return "OTrail %s" % cstr(op[1])
+    if k == "tolargs":
+        return "OToLargs %s" % cbool(op[1])
+    return {"merge": "OMerge", "tohead": "OToHead", "clear": "OClear", "unpush": "OUnpush"}[k]
+
+
+TRACE_RESULT = {1: "an operation the model's primitives cannot perform in that state", 2: "the run does not end with only the root open",
+                3: "the replayed tree differs from the returned tree"}
+
+
+def stack_traces(run, texts, klass, quick):
+    """Every parse_encoded() call of parse() on the selected inputs is recorded as a sequence of primitive stack operations
+    (harness/stacktrace.py); Coq replays the sequence on Model/Stack.v and compares the result with the returned tree."""
+    from lib import cstr
+    rng = run.rng
+    cand = [i for i in range(len(texts)) if klass[i] != "placeholder" and len(texts[i]) <= 400
+            and not any(0x10203D <= ord(ch) for ch in texts[i])]
+    keep = [i for i in cand if klass[i] in ("corpus", "ladder", "shapes") and len(texts[i]) <= 200]
+    rest = [i for i in cand if i not in set(keep)]
+    rng.shuffle(rest)
+    sel = keep + rest[:(900 if quick else 20000)]
+    jobs, owner = [], []
+    for k in range(0, len(sel), 60):
+        part = sel[k:k + 60]
+        jobs.append({"texts": [texts[i] for i in part], "_timeout": 600})
+        owner.append(part)
+    res = lib.run_impl("parse_trace", jobs, shards=lib.NCPU)
+    cases, refs, nops, kinds_seen = [], [], 0, {}
+    for part, r in zip(owner, res):
+        if r.get("outcome") != "ok":
+            run.correspondence_break("the primitive operations of parse() could not be recorded (%r)" % r.get("outcome"),
+                                     {"text": texts[part[0]]})
+            continue
+        for i, o in zip(part, r["outs"]):
+            if "raised" in o:
+                continue          # reported by the totality part above
+            for rec in o["recs"]:
+                if rec["tree"] is None:
+                    continue
+                if rec["unknown"]:
+                    run.correspondence_break("parse() changed the open-node stack in a way that is none of the modelled primitive "
+                                             "operations: %s" % "; ".join(rec["unknown"][:3]), {"text": texts[i]})
+                    continue
+                if len(rec["ops"]) > 1500:
+                    continue
+                for op in rec["ops"]:
+                    kinds_seen[op[0]] = kinds_seen.get(op[0], 0) + 1
+                nops += len(rec["ops"])
+                table = clist(sorted(rec["table"].items()), lambda kv: "(%d%%N, %s)" % (ord(kv[0]), cstr(kv[1])), "N * text")
+                cases.append("(%s, %s, %s, %s)" % (table, cstr(o["title"]), clist(rec["ops"], trace_op, "op"), trace_node(rec["tree"])))
+                refs.append(i)
+                run.count(["trace", texts[i], len(cases)], len(rec["ops"]) >= 8, "stack-trace")
+    defs = "Open Scope N_scope.\n"
+    bad, errs = lib.coq_eval_failing("c01s", ["Model.Tree", "Model.Stack"], "list (N * text) * text * list op * node", cases,
+                                     "fun '(tb, ti, ops, t) => Nat.eqb (check_trace tb ti ops t) 0", chunk=100, extra_defs=defs)
+    for e in errs:
+        run.correspondence_break("model evaluation failed (stack traces)", None, error=e)
+    for b in bad:
+        out = lib.coq_eval_term(["Model.Tree", "Model.Stack"], "(fun '(tb, ti, ops, t) => check_trace tb ti ops t) (%s)" % cases[b],
+                                extra_defs=defs)
+        import re
+        m = re.search(r"=\s*(\d+)", out)
+        why = TRACE_RESULT.get(int(m.group(1)) if m else -1, "?")
+        run.correspondence_break("Model.Stack (the primitive operations _parser_push/_parser_pop/_parser_merge_str_children and the "
+                                 "handlers' direct changes) does not reproduce parse(): %s" % why, {"text": texts[refs[b]]})
+    run.extra["stack_traces_replayed"] = len(cases)
+    run.extra["stack_operations_replayed"] = nops
+    run.extra["stack_operation_kinds"] = kinds_seen
 
 
 def replay(data):
